@@ -30,14 +30,18 @@ ASSUME = {
     "C17": [
         "the terminal's state is observed through CursorPosition(), VT.viewportY and VT.data (flat (char, fg, bg) triples, line after line): a different internal representation needs a new projection in harness/tty (the harness then fails to build: exit 2, not a violation)",
         "a write outside the terminal's buffer is observed as a Go run-time panic (slice bounds are checked), recovered by the harness and logged as res=panic",
-        "console geometries W, H >= 1 (AttachTo on a console without cells is outside the property's quantifier); colours are the console's defaults (tty.VT offers no call that changes them)",
+        "NOT covered, boundary of the quantifier: a console that reports 0 columns or 0 rows (on the pinned tree the first write to such a terminal panics with index out of range: VesaFbConsole reports 0 x 0 before a font is set and 0 rows when less than one glyph row fits below the logo); the reference terminal of the statement has no cursor position on an empty viewport, so the class is treated as outside 'console of any size'",
+        "NOT covered, physically infeasible: geometries / scrollback lengths whose buffer W*(H+scrollback)*3 does not fit a 32-bit byte count (>= 4 GiB) or whose H+scrollback wraps in uint32 (on the pinned tree AttachTo computes both in uint32: NewVT(4, 2^32-1) on a 3x2 console allocates 9 bytes and the 4th character panics); covered up to 132x50+10, 2x2+349 and 80x25+80",
+        "colours are the console's DefaultColors(): the recording console reports 7/0 or any seeded pair 0..255; the shipped consoles always report 7/0; tty.VT offers no call that changes the current colours",
+        "bytes are written with WriteByte and with Write (slices of 0..2W+2 bytes, every byte value 0..255); SetState is only called with the two defined states; a terminal is attached once",
         "uint32 arguments are logged saturated at 2^30 (TLC integers are 32 bit); the reference clips to the viewport, so nothing it needs is lost",
         "trusted Go: operation-list decoder, event logger, cell-code packing in harness/tty (no expected results in them)",
     ],
     "C18": [
         "what the terminal holds is VT.data / VT.viewportY as observed (C18 compares the console with the terminal's own viewport, not with the C17 reference)",
         "text mode: a cell shows the character / attribute pair stored in it; frame buffer: a cell shows <<ch, fg, bg>> iff its pixels equal the font glyph of ch rendered with palette entries fg/bg in the frame buffer's pixel format (exact comparison; pictures that two triples share - blank glyph, inverse glyph pairs of the cp437 fonts - are compared up to that equivalence, defined in VTConsole!Canon from the font's glyph classes logged at attach time)",
-        "frame buffers: depths 8/15/16/24/32 with the usual 5-5-5, 5-6-5 and 8-8-8 layouts (24 bpp RGB/BGR; 32 bpp XRGB, XBGR and RGBX / BGRX with a colour component in bits 24-31), pitch = row bytes + {0,1,3,4,7,17}, partial cells right of / below the grid, the three shipped fonts and a synthetic 9x5 font, logo heights 0/5/13; a 32 bpp pixel is read with all four bytes and masked by the union of the component masks (bits no component uses are not displayed)",
+        "frame buffers: depths 8/15/16/24/32 with 5-5-5 and 5-6-5 (RGB and BGR), 8-8-8 (24 bpp RGB/BGR; 32 bpp XRGB, XBGR and RGBX / BGRX with a colour component in bits 24-31), pitch = row bytes + {0,1,3,4,7,17,32,255,1000}, partial cells right of / below the grid, the three shipped fonts and synthetic fonts 5x7, 9x5, 16x6, 17x3 (1, 2, 2 and 3 bytes per glyph row, garbage in the unused bits), logo heights 0/1/5/13/64; a 32 bpp pixel is read with all four bytes and masked by the union of the component masks (bits no component uses are not displayed)",
+        "NOT covered: colour masks wider than 8 bits (the driver's palette has 8-bit components), fonts with fewer than 256 glyphs, a logo taller than the screen (SetLogo itself fails before a terminal exists), consoles of 0 columns / rows (see C17)",
         "outside the grid = guard bytes directly before / after the mapped frame buffer, the logo rows and the padding bytes after every pixel row; partial cells right of / below the grid are not compared (Scroll moves whole visible rows)",
         "the consoles are built through exported API only (New*, DriverInit, SetLogo, SetFont); the overlay shim harness/tty/c18_console_shim.go binds the two hardware seams (mapRegionFn, portWriteByteFn) to host memory, as the repository's own console tests do",
         "SetState(inactive) itself is not constrained (the statement speaks about writes while active / inactive and about activation)",
@@ -192,7 +196,7 @@ def run_tty(ctx, prop):
     def record_t():
         try:
             _go(ctx, prop, "TestVerifC17Random",
-                {"TRACE_OUT": tr_t, "VERIF_TTY_CONS": _kinds(prop), "NTRACES": 1 if q else 8}, 900)
+                {"TRACE_OUT": tr_t, "VERIF_TTY_CONS": _kinds(prop), "NTRACES": 1 if q else (6 if prop == "C17" else 4)}, 900)
         except Exception as e:          # re-raised in the main thread
             terr.append(e)
     # design mutants: tiny runs (TLC stops at the first rejected state), in their own thread
@@ -206,7 +210,7 @@ def run_tty(ctx, prop):
 
     def record_h():
         try:
-            _go_hal(ctx, {"TRACE_OUT": tr_h, "NTRACES": 36 if q else 600}, 900)
+            _go_hal(ctx, {"TRACE_OUT": tr_h, "NTRACES": 36 if q else 360}, 900)
         except Exception as e:
             terr.append(e)
     ths = [threading.Thread(target=record_t), threading.Thread(target=mutants)]
@@ -245,8 +249,8 @@ def run_tty(ctx, prop):
         ncase_lines = sum(1 for _ in f)
     env = {"CASES": cases, "TRACE_OUT": tr_g, "VERIF_TTY_CONS": _kinds(prop)}
     if prop == "C18":
-        # every case on the recording console; every 2nd (quick) / 6th (thorough) also on the real consoles
-        env["VERIF_TTY_KINDMOD"] = 2 if q else 6
+        # every case on the recording console; every 3rd (quick) / 6th (thorough) also on the real consoles
+        env["VERIF_TTY_KINDMOD"] = 3 if q else 6
     _go(ctx, prop, "TestVerifC17Cases", env, 1800)
     ctx.cov["legs"]["emit"] = {"case_lines_from_tlc": ncase_lines}
 
